@@ -230,3 +230,36 @@ def garbage(r):
     if k < 0.7:
         return [r.choice([-1, 1]) * r.randint(1, 30000) for _ in range(n)]
     return [r.choice([0, 0, 5, -5, 10 ** 7, -10 ** 7, 560, -560]) for _ in range(n)]
+
+
+def standard_correspondence(ctx, r, per_proto=2, focus=()):
+    """the shared model/code tie for the engine properties"""
+    E = Engine()
+    for t in E.supported:
+        d = E.dec(t['name'])
+        n = per_proto * (5 if t['name'] in focus else 1)
+        for k in range(n):
+            p = E.protos.sample_params(d, r)
+            try:
+                code, calls = E.capture_builds(d, p, repeat_count=k % 3)
+            except Exception:
+                continue
+            for op, res in calls[:3]:
+                E.add(op, res)
+            frames = E.protos.frames(code)
+            if not frames:
+                continue
+            fr = frames[0]
+            for tn in ((20, 5) if k == 0 else (r.choice([20, 10, 5]),)):
+                E.parse_op(t, tn, 1, fr)
+                for f in perturbations(r, fr, t, tn):
+                    E.parse_op(t, tn, 1, f)
+            E.parse_op(t, 20, 1, garbage(r))
+            iid, inst = E.new_inst(t['name'])
+            if k % 2:
+                E.set_tol(iid, inst, r.choice([5, 10, 20]))
+            for f in frames[:3] + [fr, garbage(r), fr]:
+                E.idecode(iid, inst, f)
+    E.finish(ctx)
+    ctx.sample({'correspondence_op': E.ops[200][:200], 'real_and_model': E.reals[200][:200]})
+    return E
